@@ -129,7 +129,13 @@ func VF_C14_K3_Path() {
 	zzvf.Reach("c14k3-start")
 	if zzvf.Choose("fn", 2) == 0 {
 		rid := PathToRID(path, "", api)
+		want, ok := vfRefPathToRID(tail)
+		if !ok {
+			want = ""
+		}
+		zzvf.Assert(zzvf.StrEq(rid, want), "path-maps-to-the-percent-decoded-rid")
 		if codec.IsValidRID(rid, true) {
+			zzvf.Reach("c14k3-accepted")
 			zzvf.Assert(vfSubjectSafe(rid), "get-rid-is-subject-safe")
 		}
 		return
@@ -139,6 +145,56 @@ func VF_C14_K3_Path() {
 		zzvf.Assert(vfSubjectSafe(rid), "post-rid-is-subject-safe")
 		zzvf.Assert(vfSubjectSafe(action) && !vfHasByte(action, '.'), "post-action-is-one-safe-token")
 	}
+}
+
+func vfHexVal(c byte) int {
+	switch {
+	case c >= '0' && c <= '9':
+		return int(c - '0')
+	case c >= 'a' && c <= 'f':
+		return int(c-'a') + 10
+	case c >= 'A' && c <= 'F':
+		return int(c-'A') + 10
+	}
+	return -1
+}
+
+// vfRefPathToRID: reference for the path part after the apiPath prefix:
+// no literal dot, optional leading slash, segments split at '/', each
+// percent-decoded (an invalid escape rejects the path), joined with dots.
+func vfRefPathToRID(tail string) (string, bool) {
+	if len(tail) == 0 {
+		return "", false
+	}
+	for i := 0; i < len(tail); i++ {
+		if tail[i] == '.' {
+			return "", false
+		}
+	}
+	if tail[0] == '/' {
+		tail = tail[1:]
+	}
+	out := make([]byte, 0, len(tail))
+	for i := 0; i < len(tail); i++ {
+		c := tail[i]
+		switch {
+		case c == '/':
+			out = append(out, '.')
+		case c == '%':
+			if i+2 >= len(tail) {
+				return "", false
+			}
+			h, l := vfHexVal(tail[i+1]), vfHexVal(tail[i+2])
+			if h < 0 || l < 0 {
+				return "", false
+			}
+			out = append(out, byte(h<<4|l))
+			i += 2
+		default:
+			out = append(out, c)
+		}
+	}
+	return string(out), true
 }
 
 func vfHasByte(s string, b byte) bool {
